@@ -60,6 +60,28 @@ func LoadProgram(repo string, tags string, patterns []string) (*Program, error) 
 	for _, sp := range prog.AllPackages() {
 		p.Pkgs[sp.Pkg.Path()] = sp
 	}
+	// canonical owner names for struct field heaps: the smallest name among the named types
+	// sharing one underlying struct (deterministic, independent of verification order)
+	ownerMu.Lock()
+	for _, sp := range prog.AllPackages() {
+		if !strings.HasPrefix(sp.Pkg.Path(), modPath) {
+			continue
+		}
+		sc := sp.Pkg.Scope()
+		for _, n := range sc.Names() {
+			tn, ok := sc.Lookup(n).(*types.TypeName)
+			if !ok {
+				continue
+			}
+			if st, ok := tn.Type().Underlying().(*types.Struct); ok {
+				name := typeName(tn.Type())
+				if cur, ok := ownerCanon[st]; !ok || name < cur {
+					ownerCanon[st] = name
+				}
+			}
+		}
+	}
+	ownerMu.Unlock()
 	all := ssautil.AllFunctions(prog)
 	// methods of types that are never converted to an interface are not in AllFunctions
 	for _, sp := range prog.AllPackages() {
